@@ -570,17 +570,13 @@ def _c03():
              ("graph", "function_node graph, wait_for_all, reset and reuse", [0, 1, 2, 4]), ("execute", "task_arena::execute of a nested one-slot arena", [1, 2]),
              ("pipeline_obj", "3-stage pipeline whose items travel in library-allocated tokens (4 items, 3 tokens): every item is destroyed exactly once also when a filter throws", [0, 2, 4, 8, 32, 64]),
              ("same_arena", "bodies that call task_arena::execute on the arena they already run in (directly / through attach) and throw afterwards; then a parallel_for whose bodies do the same", [0, 1, 2, 4, 3])]
+    # one sweep leg per program kind: its parameter sets (fault masks / positions) are explored four at a time, each exhaustively within the bound
     for k, what, masks in progs:
-        for m in masks:
-            L.append(leg("%s-m%d" % (k, m), "c03_rt", (2, 3) if k not in ("graph", "pipeline", "pipeline_obj", "foreach") else (1, 2), {"kind": k, "mask": m}, what="%s; throwing invocations mask %d" % (what, m)))
-    for ct in (1, 2, 3, 5):
-        L.append(leg("foreach_input-c%d" % ct, "c03_rt", (1, 2), {"kind": "foreach_input", "mask": 0, "copythrow": ct}, what="parallel_for_each over input iterators (items are copied into blocks by the library): the %d. item copy throws; the call must rethrow it and destroy every copy" % ct))
-    for part in (0, 1, 2):
-        for m in (1, 2):
-            L.append(leg("pfor_split-p%d-m%d" % (part, m), "c03_rt", (1, 2), {"kind": "pfor_split", "part": part, "mask": m}, what="parallel_for (partitioner %d): invocation mask %d of the Range's splitting constructor throws" % (part, m), weight=0.5))
-    for part in (0, 1):
-        for m in (2, 4):
-            L.append(leg("pfor_bodycopy-p%d-m%d" % (part, m), "c03_rt", (1, 2), {"kind": "pfor_bodycopy", "part": part, "mask": m}, what="parallel_for (partitioner %d): invocation mask %d of the Body's copy constructor throws" % (part, m), weight=0.5))
+        b = (2, 3) if k not in ("graph", "pipeline", "pipeline_obj", "foreach") else (1, 2)
+        L.append(sweep(k, "c03_rt", b, [{"mask": m} for m in masks], {"kind": k}, what="%s; throwing invocations: masks %s" % (what, masks), tiers=("quick", "thorough"), weight=len(masks) / 3.0))
+    L.append(sweep("foreach_input", "c03_rt", (1, 2), [{"copythrow": ct} for ct in (1, 2, 3, 5)], {"kind": "foreach_input", "mask": 0}, what="parallel_for_each over input iterators (items are copied into blocks by the library): the k-th item copy throws (k = 1, 2, 3, 5); the call must rethrow it and destroy every copy", tiers=("quick", "thorough")))
+    L.append(sweep("pfor_split", "c03_rt", (1, 2), [{"part": p, "mask": m} for p in (0, 1, 2) for m in (1, 2)], {"kind": "pfor_split"}, what="parallel_for (simple / auto / static partitioner): the first / second invocation of the Range's splitting constructor throws", tiers=("quick", "thorough")))
+    L.append(sweep("pfor_bodycopy", "c03_rt", (1, 2), [{"part": p, "mask": m} for p in (0, 1) for m in (2, 4)], {"kind": "pfor_bodycopy"}, what="parallel_for (simple / auto partitioner): the second / third copy of the Body throws", tiers=("quick", "thorough")))
     L.append(leg("same_arena-m0-pfor", "c03_rt", (2, 3), {"kind": "same_arena", "mask": 0, "mask2": 2}, what="same-arena execute inside parallel_for bodies, the second body throws"))
     return L
 PROPS["C03"] = {
